@@ -67,9 +67,11 @@ def tlc_phase(ctx):
     hold = [("Mempool_seq_quick.cfg", "repaired: sequential API, durability, crash/close/reopen"),
             ("Mempool_conc_quick.cfg", "repaired: two pushers, a listener, a popper"),
             ("Mempool_live.cfg", "repaired: liveness under fairness"),
-            ("Mempool_ascoded.cfg" if t else "Mempool_ascoded_quick.cfg", "as coded: what holds in spite of the defects")]
+            ("Mempool_ascoded.cfg" if t else "Mempool_ascoded_quick.cfg", "as coded: what holds in spite of the defects"),
+            ("Mempool_ascoded_overflow.cfg", "as coded: the write channel fills")]
     if t:
-        hold += [("Mempool_seq_fail.cfg", "repaired: a failing batch write"),
+        hold += [("Mempool_seq_mid.cfg", "repaired: sequential, two pops"),
+                 ("Mempool_seq_fail.cfg", "repaired: a failing batch write"),
                  ("Mempool_seq_thorough.cfg", "repaired: sequential, larger"),
                  ("Mempool_conc_thorough.cfg", "repaired: two pushers, two listeners, close and crash"),
                  ("Mempool_ascoded_conc.cfg", "as coded: two pushers and a listener"),
@@ -81,7 +83,7 @@ def tlc_phase(ctx):
         cfg, label, expect = job
         return job, ctx.tlc_check(FAM, "MCMempool.tla", cfg, workers=workers if expect is None else 2, timeout=3000,
                                   label=label + " [" + cfg + "]", expect_violation=expect is not None,
-                                  coverage=(t and cfg in ("Mempool_seq_quick.cfg", "Mempool_conc_quick.cfg")))
+                                  coverage=(t and cfg in ("Mempool_seq_quick.cfg", "Mempool_conc_quick.cfg", "Mempool_ascoded_overflow.cfg")))
 
     jobs = [(c, l, None) for c, l in hold] + [(c, "expected violation of %s (%s)" % (p, w), p) for c, p, w in EXPECT]
     with ThreadPoolExecutor(max_workers=par) as ex:
@@ -90,7 +92,8 @@ def tlc_phase(ctx):
         if expect is None:
             if "coverage" in r:
                 # actions that cannot fire in that configuration by construction
-                vlib.require_actions_covered(r, ignore=("WLen", "Drop") + (("CDrain", "CWake") if "seq" in cfg else ("WaitPoll", "StoreBlock", "Close", "CloseDone", "Crash", "Reopen")))
+                vlib.require_actions_covered(r, ignore=("Next", "WLen") + (() if "overflow" in cfg else ("Drop",)) + (("CDrain", "CWake") if "seq" in cfg else ("StoreBlock", "Crash", "Reopen", "CDrain", "CWake", "WaitPoll") if "overflow" in cfg
+                                                                   else ("WaitPoll", "StoreBlock", "Close", "CloseDone", "Crash", "Reopen")))
             continue
         if r["ok"] or r["violated"] != expect:
             raise vlib.Broken("expected-violation run %s: expected %s, got %s — the model changed" % (cfg, expect, r["violated"]))
@@ -247,6 +250,7 @@ def bindings(ctx, binary, only, thorough, tlc_job):
             (dict(Max=4, LazyWriter="FALSE", StartEmpty="FALSE"), dict(max=4, start_empty=False), 2, 8),
             (dict(Max=3, LazyWriter="TRUE", StartEmpty="FALSE"), dict(max=3, start_empty=False), 1, 4),
             (dict(Max=5, LazyWriter="FALSE", StartEmpty="TRUE"), dict(max=5, start_empty=True), 1, 4),
+            (dict(Max=2, LazyWriter="TRUE", StartEmpty="FALSE"), dict(max=2, start_empty=False), 1, 2),   # capacity 1, channel of 2
         ]
         nb = 0
         for i, (consts, eng, nq, nt) in enumerate(plans):
